@@ -35,6 +35,13 @@ CLAIMED = {
             "index pages, plain fragments, tracking/AMP items at every position, permutations, &amp;, escapes, whitespace, controls) and checks the "
             "reference model's output never changes; the real function is run on the same spellings and judged by the trace spec.",
             "Trusted: TLC; the table of what is irrelevant (spec/data/normdata.json, transcribed from the documentation); rewrite guards."),
+    "C05": ("DESIGN.md section 4 / C05",
+            "TLA+ contract OnlyDeletes (denotations of input and output, irrelevance tables) model checked against the reference normalize model for every option vector; TLC-enumerated (url, option vector) space replayed into normalize_url; results judged by TLC trace spec",
+            "TLC checks that the contract (host: only whole irrelevant labels / leading amp- removed; port kept; path: at most AMP marker, index page, "
+            "trailing slash removed; query: only irrelevant items removed, order kept unless sorted; options off preserve scheme/userinfo/fragment; "
+            "unparseable input returned unchanged, no exception) is satisfied by the reference model on all 1536 option vectors x 42 URLs, and "
+            "judges the real function's results on the same space.",
+            "Trusted: TLC; Url.tla denotations; normdata.json irrelevance tables; redirection-resolved input = what infer_redirection returned."),
     "C06": ("DESIGN.md section 4 / C06",
             "fingerprint spelling machine (normalize machine + port, case flips, language labels, gl/hl items) with the reference fingerprint model as output register, invariant + NoSchemeAuthPort checked by TLC; spellings replayed into fingerprint_url under strip_suffix x platform_aware; TLC trace validation",
             "TLC checks on the reference model that the fingerprint is invariant under the fingerprint-irrelevant rewrites and never carries "
